@@ -31,10 +31,13 @@ type lstep struct {
 type ldesc struct {
 	Defs  []def   `json:"defs"`
 	Steps []lstep `json:"steps"`
+	// InSub: the whole loop sits inside 1..2 nested embedded sub-processes (an
+	// event must reach the node there exactly once)
+	InSub int `json:"inSub,omitempty"`
 }
 
 func buildLoop(d ldesc) *gen.Graph {
-	return buildProc(pdesc{Defs: d.Defs, Parallel: true, Loop: true})
+	return buildProc(pdesc{Defs: d.Defs, Parallel: true, Loop: true, InSub: d.InSub})
 }
 
 type lres struct {
@@ -179,7 +182,7 @@ func TestC14Loop(t *testing.T) {
 	}
 	rapid.Check(t, func(rt *rapid.T) {
 		n := rapid.IntRange(2, 3).Draw(rt, "n")
-		d := ldesc{Defs: kindsFor(n, rapid.IntRange(0, 2).Draw(rt, "variant"))}
+		d := ldesc{Defs: kindsFor(n, rapid.IntRange(0, 2).Draw(rt, "variant")), InSub: rapid.SampledFrom([]int{0, 0, 1, 2}).Draw(rt, "inSub")}
 		for i := rapid.IntRange(2, 14).Draw(rt, "steps"); i > 0; i-- {
 			switch k := rapid.IntRange(0, 9).Draw(rt, "step"); {
 			case k <= 5:
@@ -205,6 +208,9 @@ func TestC14Loop(t *testing.T) {
 		}
 		if r.Carry {
 			cls = append(cls, "firedWithMatchesCarriedOver")
+		}
+		if d.InSub > 0 {
+			cls = append(cls, "insideSubProcess")
 		}
 		rec.Case("TestC14Loop", hash, r.Periods >= 2 && r.Fires >= 2, cls, map[string]any{"case": d, "history": r.History})
 		if r.Symptom != "" {
